@@ -1,5 +1,5 @@
 // C18: Value::GroupBy on the REAL Value<char>: an array of NOBJ objects built through the public API; each object has the
-// grouping key "y" and one other member "m" in an order that is concrete per query (ORD bit i = 1: "m" first in object i);
+// grouping key "y" and one other member "ym" (its name has the grouping key as a proper prefix) in an order that is concrete per query (ORD bit i = 1: "ym" first in object i);
 // the grouping-key values follow a concrete pattern per query (which objects share a key); the other members are symbolic.  Oracle: the reference partition computed in the harness.
 #include "Value.hpp"
 #include "vf.h"
@@ -71,12 +71,12 @@ extern "C" void h_group() {
     for (unsigned i = 0; i < NOBJ; i++) {
         V o;
 #if MKIND == 0
-        if ((ORD >> i) & 1) { o["m"] = SizeT64(m[i]); set_key(o, k[i]); }
-        else                { set_key(o, k[i]); o["m"] = SizeT64(m[i]); }
+        if ((ORD >> i) & 1) { o["ym"] = SizeT64(m[i]); set_key(o, k[i]); }
+        else                { set_key(o, k[i]); o["ym"] = SizeT64(m[i]); }
 #else
         char ms = char('p' + i);
-        if ((ORD >> i) & 1) { o["m"] = V{&ms, SizeT{1}}; set_key(o, k[i]); }
-        else                { set_key(o, k[i]); o["m"] = V{&ms, SizeT{1}}; }
+        if ((ORD >> i) & 1) { o["ym"] = V{&ms, SizeT{1}}; set_key(o, k[i]); }
+        else                { set_key(o, k[i]); o["ym"] = V{&ms, SizeT{1}}; }
 #endif
         arr += static_cast<V &&>(o);
     }
@@ -101,7 +101,7 @@ extern "C" void h_group() {
     vf_assert(grp->Size() == gsize, 5);                              // every input object in exactly one group
     const V *e = grp->GetValue(SizeT(pos));
     vf_assert(e != nullptr && e->IsObject() && e->Size() == 1, 6);   // grouping key removed, nothing else
-    const V *mv = (e != nullptr) ? e->GetValue("m", SizeT{1}) : nullptr;
+    const V *mv = (e != nullptr) ? e->GetValue("ym", SizeT{2}) : nullptr;
 #if MKIND == 0
     vf_assert(mv != nullptr && mv->IsUInt64() && mv->GetUInt64() == m[i], 7);   // other members unchanged
 #else
@@ -112,7 +112,7 @@ extern "C" void h_group() {
     // the source array is unchanged
     const V *src = arr.GetValue(SizeT(i));
     vf_assert(src != nullptr && src->IsObject() && src->Size() == 2, 9);
-    const V *sm = src->GetValue("m", SizeT{1});
+    const V *sm = src->GetValue("ym", SizeT{2});
 #if MKIND == 0
     vf_assert(sm != nullptr && sm->GetUInt64() == m[i], 10);
 #else
